@@ -154,6 +154,26 @@ def c13_b(ctx):
             ctx.check(cv == ('param', 'cov'), pdf, 'component covariance is the shared one',
                       'cov=cov', 'a component is evaluated with covariance {}'.format(
                           show(cv)[:40] if cv else None), fn=pdf, node=c_)
+    # log density = log of the density with the same arguments, nothing clipped or floored
+    lg = ctx.own_method(gm, 'logpdf')
+    exl = ctx.ex(lg)
+    rl = returns(lg)
+    okl = False
+    if len(rl) == 1:
+        t = exl.term(rl[0].value)
+        m_ = match(t, pattern('np.log(cls.pdf(*_))'))
+        if m_ is not None:
+            c_ = t[2][0]
+            kw_ = dict(c_[3])
+            a_ = list(c_[2])
+            okl = (a_[:1] == [('param', lg.params[1])] and
+                   kw_.get('means', a_[1] if len(a_) > 1 else None) == ('param', 'means') and
+                   kw_.get('cov', a_[2] if len(a_) > 2 else None) == ('param', 'cov') and
+                   kw_.get('weights', a_[3] if len(a_) > 3 else None) == ('param', 'weights'))
+    ctx.check(okl, lg, 'log density = log(pdf) of the same mixture', 'np.log(cls.pdf(x, means, '
+              'cov, weights))', 'logpdf is `{}` - not the plain logarithm of pdf with the same '
+              'arguments (a floor or clip makes it constant where the density is small)'.format(
+                  src(rl[0].value)[:70] if rl else ''), fn=lg, node=rl[0] if rl else lg.node)
     init = [s for s in own_nodes(pdf.node) if isinstance(s, ast.Assign) and
             match(ex.term(s.value), pattern('np.zeros(len(_))')) is not None]
     ctx.check(bool(init) and ctx.must_precede(pdf, init, n), pdf, 'accumulator starts at zero',
